@@ -121,9 +121,13 @@ def penalizedDeviance (f : Family) (y mu : List α) (alpha : α) (coef : List α
   pure (d + alpha * nrm)
 
 /-- `has_converged(loss, loss_previous, tolerance)`; `none` = the initial `f64::INFINITY`.
-At `loss_previous = ±0` the source evaluates `|loss - 0| / 0`, which in IEEE arithmetic is `+inf` or `NaN` and never
+At `loss_previous = +0` the source evaluates `|loss - 0| / 0`, which in IEEE arithmetic is `+inf` or `NaN` and never
 `< tolerance`: the test is false.  That case is written out (`lp == 0`), so that an instance in which `x / 0 = 0` (a
-field) does not declare convergence where the code does not; at `Float` the extra branch changes nothing. -/
+field) does not declare convergence where the code does not.  At `Float` the branch agrees with the plain quotient for
+`lp = +0.0` (and for `lp = -0.0` when `loss = ±0`); for `lp = -0.0` and `loss ≠ 0` the source computes
+`|loss| / (-0.0) = -inf < tol`, i.e. true for a positive tolerance, while this model says false.  A penalised deviance
+of exactly `-0.0` needs every unit-deviance term (and `alpha * norm`) to be `-0.0`; no generated request reaches it (the
+bit-exact tie would show the difference), and it is listed under ASSUMPTIONS in tools/cv/c06.py. -/
 def hasConverged (loss : α) (lossPrev : Option α) (tol : α) : Bool :=
   match lossPrev with
   | none => false
